@@ -101,6 +101,19 @@ CLAIMS = {
          "whenever t + d is within chrono's range, an overflow error otherwise. Not proved: the RFC 3339 text round trip. Tied to functions.rs/objects.rs/"
          "chrono by boundary and random timestamps through every accessor, string(), timestamp(), arithmetic and comparison, with all laws evaluated on the "
          "implementation against an independent calendar computation."),
+ "C17": ("Theorems over the whole serde data model (an inductive type with one constructor per Serializer entry point), by induction on the data: "
+         "to_value never panics; when it succeeds the result is related to the input by Conv (signed -> int, unsigned -> uint, seq/tuple/tuple struct -> "
+         "list, struct/map -> map built by insert-in-order whose keys are distinct, exactly the converted keys, last binding wins; the four variant kinds -> "
+         "string or single-entry map; wrappers -> duration/timestamp); key kinds accepted/refused; every supported datum converts; and for JSON-representable "
+         "data (no bytes / 128-bit / wrappers, keys serde_json accepts, text-distinct keys) converting then exporting equals a model of serde_json's own "
+         "serializer. Tied to ser.rs / json.rs / serde_json by a generator with a hand-written Serialize impl that drives every Serializer method, "
+         "unsupported keys included, plus every document of a JSON generator; the commutation law is also evaluated on the implementation with the real serde_json."),
+ "C18": ("Theorems by induction on values: Value::json never panics, succeeds exactly on values without a function value or a duration beyond i64 nanoseconds "
+         "and returns an error otherwise; the document is structurally the value (JExp: arrays, objects keyed by key text with insert-in-iteration-order, "
+         "base64, RFC 3339, nanosecond count, non-finite -> null); base64 is inverted by a decoder for every byte string; and importing the exported document "
+         "of a JSON-native value with text-distinct keys yields a value equal to the original. Tied to json.rs by the C02/C09 boundary value set (alone and "
+         "nested), colliding-key maps and a recursive value generator, the model being told the hash maps' iteration order; totality and import/export laws "
+         "are also evaluated on the implementation."),
  "C06": ("Theorems that Eval.eval (a structural Fixpoint transcribing Value::resolve) returns the left operand's outcome "
          "and host-call log alone when && / || are decided by it, evaluates exactly one branch of ?:, and propagates a "
          "left error - for every context and operand expression, hence at every depth and inside macro bodies. Tied to the "
